@@ -412,13 +412,19 @@ func r16_5(c *Ctx, rule string) {
 			c.ObErrChecked(rule+"/checked", call)
 		}
 	}
-	for _, e := range []struct{ field, param string }{{"copy.copier.includePatternMatcher", "includePatterns"}, {"copy.copier.excludePatternMatcher", "excludePatterns"}} {
+	viaOptions := map[string]bool{}
+	for _, e := range []struct{ field, param, opt string }{{"copy.copier.includePatternMatcher", "includePatterns", "copy.CopyInfo.IncludePatterns"}, {"copy.copier.excludePatternMatcher", "excludePatterns", "copy.CopyInfo.ExcludePatterns"}} {
 		ok := false
 		for _, s := range fieldStoresIn(nc, e.field) {
 			if c.DerivesFrom(s.Val, func(v ssa.Value) bool {
 				call, isC := v.(*ssa.Call)
 				if !isC || c.P.CalleeName(call) != "github.com/moby/patternmatcher.New" {
 					return false
+				}
+				// the options struct handed through as a whole
+				if isFieldLoad(call.Call.Args[0], e.opt) {
+					viaOptions[e.param] = true
+					return true
 				}
 				p, isP := eng.Strip(call.Call.Args[0]).(*ssa.Parameter)
 				if isP && p.Parent() != nc && c.P.Transparent(p.Parent()) {
@@ -443,6 +449,11 @@ func r16_5(c *Ctx, rule string) {
 						if from != ssa.Value(kc) {
 							continue
 						}
+						if isFieldLoad(kc.Call.Args[idx], e.opt) {
+							viaOptions[e.param] = true
+							found = true
+							continue
+						}
 						q, isQ := eng.Strip(kc.Call.Args[idx]).(*ssa.Parameter)
 						if !isQ || c.P.ParamName(q) != e.param {
 							return false
@@ -462,8 +473,20 @@ func r16_5(c *Ctx, rule string) {
 	if cp != nil {
 		for _, call := range c.P.CallsTo(cp, "copy.newCopier") {
 			a := call.Common().Args
-			okI := isFieldLoad(a[6], "copy.CopyInfo.IncludePatterns")
-			okE := isFieldLoad(a[7], "copy.CopyInfo.ExcludePatterns")
+			// the argument in the position of the list parameter (none when the options travel as a struct)
+			argOf := func(param, opt string) bool {
+				if viaOptions[param] {
+					return true
+				}
+				for i, q := range nc.Params {
+					if c.P.ParamName(q) == param && i < len(a) {
+						return isFieldLoad(a[i], opt)
+					}
+				}
+				return false
+			}
+			okI := argOf("includePatterns", "copy.CopyInfo.IncludePatterns")
+			okE := argOf("excludePatterns", "copy.CopyInfo.ExcludePatterns")
 			c.R.Check(okI && okE, rule, c.siteName(call)+"/pattern-args", c.pos(call), "newCopier receives (IncludePatterns, ExcludePatterns)", "Copy hands the include/exclude pattern lists to newCopier in the wrong positions")
 		}
 	}
